@@ -3,6 +3,7 @@ package internal
 import (
 	"context"
 	"errors"
+	"fmt"
 	"go/ast"
 	"go/types"
 	"strings"
@@ -38,6 +39,16 @@ func NewParser(buildTags []string) *Parser {
 	return p
 }
 
+// hasSubPackage reports whether any of the loaded packages that have Go files lives below pkgPath.
+func hasSubPackage(pkgs []*packages.Package, pkgPath string) bool {
+	for _, pkg := range pkgs {
+		if len(pkg.GoFiles) != 0 && strings.HasPrefix(pkg.PkgPath, pkgPath+"/") {
+			return true
+		}
+	}
+	return false
+}
+
 func (p *Parser) ParsePackages(ctx context.Context, packageNames []string) ([]*config.Interface, error) {
 	log := zerolog.Ctx(ctx)
 	interfaces := []*config.Interface{}
@@ -51,6 +62,15 @@ func (p *Parser) ParsePackages(ctx context.Context, packageNames []string) ([]*c
 		pkgCtx := pkgLog.WithContext(ctx)
 
 		if len(pkg.GoFiles) == 0 {
+			// A package without Go files is skipped (a recursive root may have none of
+			// its own), unless it could not be loaded at all and nothing below it was
+			// found either: then the configured path is simply wrong.
+			if len(pkg.Errors) != 0 && !hasSubPackage(packages, pkg.PkgPath) {
+				for _, err := range pkg.Errors {
+					pkgLog.Err(err).Msg("encountered error when loading package")
+				}
+				return nil, fmt.Errorf("package %s could not be loaded", pkg.PkgPath)
+			}
 			continue
 		}
 		for _, err := range pkg.Errors {
